@@ -12,9 +12,22 @@ Definition vtype (v : value) (t : ty) : Prop :=
   | VInt a _, TInt b => a = b
   | VBool _, TBool => True
   | VUnit, TVoid => True
-  | VStruct sid fs, TStruct sid' => sid = sid' /\ exists fts, nth_error structs sid = Some fts /\ length fs = length fts
+  | VStruct sid fs, TStruct sid' | VStruct sid fs, TMutRef sid' =>   (* a reference parameter holds a struct value *)
+      sid = sid' /\ exists fts, nth_error structs sid = Some fts /\ length fs = length fts
   | _, _ => False
   end.
+
+(* a value has a reference-parameter type exactly when it has the type the parameter has inside the callee *)
+Lemma vtype_pty_in v t : vtype v (pty_in t) <-> vtype v t.
+Proof. destruct t; cbn; tauto. Qed.
+
+Lemma Forall2_vtype_pty_in : forall vs pts, Forall2 vtype vs (map pty_in pts) <-> Forall2 vtype vs pts.
+Proof.
+  intros vs pts. split.
+  - revert vs. induction pts as [|t pts IH]; intros vs H; inversion H as [|v ? vr ? Hv Hr]; subst; constructor; auto.
+    apply vtype_pty_in; exact Hv.
+  - induction 1 as [|v t vr pr Hv Hr IH]; cbn; constructor; auto. apply vtype_pty_in; exact Hv.
+Qed.
 
 Inductive scope_ok : tscope -> scope -> Prop :=
 | so_nil : scope_ok [] []
@@ -92,133 +105,166 @@ Proof.
   - destruct (IH z r) as [r' [Hs Hl]]; [lia|]. rewrite Hs. eexists; split; [reflexivity|]. cbn. congruence.
 Qed.
 
+(* positional facts about scopes: a scope matching new ++ old splits accordingly *)
+Lemma scope_ok_app_inv : forall g1 g2 s, scope_ok (g1 ++ g2) s ->
+  exists s1 s2, s = s1 ++ s2 /\ scope_ok g1 s1 /\ scope_ok g2 s2.
+Proof.
+  induction g1 as [|[x t] g1 IH]; intros g2 s H; cbn in H.
+  - exists [], s. split; [reflexivity|]. split; [constructor|exact H].
+  - inversion H as [|? ? v ? s' Hv Hs]; subst. destruct (IH _ _ Hs) as [s1 [s2 [-> [H1 H2]]]].
+    exists ((x, v) :: s1), s2. split; [reflexivity|]. split; [constructor; assumption|exact H2].
+Qed.
+
+Lemma scope_ok_length g s : scope_ok g s -> length s = length g.
+Proof. induction 1 as [|x t v g s Hv Hs IH]; cbn; congruence. Qed.
+
+Lemma scope_ok_values g s : scope_ok g s -> Forall2 vtype (map snd s) (map snd g).
+Proof. induction 1 as [|x t v g s Hv Hs IH]; cbn; constructor; assumption. Qed.
+
+Lemma lastn_app {A} (l1 l2 : list A) : lastn (length l2) (l1 ++ l2) = l2.
+Proof.
+  unfold lastn. rewrite app_length. replace (length l1 + length l2 - length l2)%nat with (length l1) by lia.
+  induction l1 as [|a l1 IH]; cbn; auto.
+Qed.
+
+(* copy-out: the final values of the by-reference parameters are written back into variables of the struct type, so the
+   environment stays well typed (and the write-back never fails) *)
+Lemma copy_out_ok sigs G : forall args pts finals en,
+  Forall2 (argr_ok structs sigs G) args pts -> Forall2 vtype finals pts -> env_ok G en ->
+  exists en', copy_out args finals en = Some en' /\ env_ok G en'.
+Proof.
+  intros args pts finals en HF. revert finals en.
+  induction HF as [|[fl e] pt args pts [Hfl [Hvar [te [Hte Heq]]]] HF IH]; intros finals en Hfin He.
+  - inversion Hfin; subst. cbn. eauto.
+  - inversion Hfin as [|v ? fr ? Hv Hfr]; subst. cbn [fst snd] in Hfl, Hvar, Hte. destruct fl.
+    + specialize (Hvar eq_refl). destruct e; try discriminate. cbn in Hte.
+      destruct (tlookup x G) as [tx|] eqn:El; [|discriminate]. inversion Hte; subst tx.
+      apply ty_eqb_eq in Heq. subst te.
+      apply (proj2 (vtype_pty_in v pt)) in Hv. destruct (update_ok _ _ _ _ _ He El Hv) as [en1 [Hu He1]].
+      cbn. rewrite Hu. apply IH; assumption.
+    + cbn. apply IH; assumption.
+Qed.
+
 Section Safety.
 Variable sigs : list sig.
-Variable callf : nat -> list value -> list line -> res value.
-(* the meaning of calls respects the signatures *)
+Variable callf : nat -> list value -> list line -> res (value * list value).
+(* the meaning of calls respects the signatures: the result has the return type, and the final parameter values
+   (what by-reference callers read back) have the parameter types *)
 Hypothesis callf_ok : forall f pts rt args out, nth_error sigs f = Some (pts, rt) ->
-  Forall2 vtype args pts -> fine (fun v => vtype v rt) (callf f args out).
+  Forall2 vtype args pts -> fine (fun r => vtype (fst r) rt /\ Forall2 vtype (snd r) pts) (callf f args out).
 
 Theorem eval_safe G : forall e t en out, check_expr structs sigs G e = TOk t -> env_ok G en ->
-  fine (fun v => vtype v t) (eval structs callf e en out).
+  fine (fun r => vtype (fst r) t /\ env_ok G (snd r)) (eval structs callf e en out).
 Proof.
-  fix IH 1. intros e t en out H He. destruct e as [t0 z|b|x|o a b|o a|a t0|f es|sid es|a k].
-  - cbn in H. destruct (in_range t0 z); inversion H; cbn; reflexivity.
-  - inversion H; cbn; exact I.
+  fix IH 1. intros e t en out H He. destruct e as [t0 z|b|x|o a b|o a|a t0|f es|sid es|a k|f args].
+  - cbn in H. destruct (in_range t0 z); inversion H; cbn; auto.
+  - inversion H; cbn; auto.
   - cbn in H. destruct (tlookup x G) as [t1|] eqn:E; inversion H; subst.
-    destruct (lookup_ok _ _ _ _ He E) as [v [Hl Hv]]. cbn. rewrite Hl. exact Hv.
+    destruct (lookup_ok _ _ _ _ He E) as [v [Hl Hv]]. cbn. rewrite Hl. cbn. auto.
   - cbn in H. apply tbind_ok in H as [ta [Ha H]]. apply tbind_ok in H as [tb [Hb H]].
-    pose proof (IH a ta en) as IHa. pose proof (IH b tb en) as IHb.
-    assert (Hgen : forall t',
-              (forall va vb, vtype va ta -> vtype vb tb -> forall out2,
-                 fine (fun v => vtype v t') (
-                  match va, vb with
-                  | VInt t1 x, VInt t2 y =>
-                      if ity_eqb t1 t2 then
-                        if is_arith o then
-                          match arith o t1 x y with Some z => Ok (VInt t1 z) out2 | None => Undef out2 end
-                        else match compare o x y with Some c => Ok (VBool c) out2 | None => Wrong end
-                      else Wrong
-                  | VBool x, VBool y =>
-                      match o with
-                      | Eq => Ok (VBool (Bool.eqb x y)) out2
-                      | Ne => Ok (VBool (negb (Bool.eqb x y))) out2
-                      | _ => Wrong
-                      end
-                  | _, _ => Wrong
-                  end)) ->
-              fine (fun v => vtype v t')
-                (bind (eval structs callf a en out) (fun va out1 => bind (eval structs callf b en out1) (fun vb out2 =>
-                  match va, vb with
-                  | VInt t1 x, VInt t2 y =>
-                      if ity_eqb t1 t2 then
-                        if is_arith o then
-                          match arith o t1 x y with Some z => Ok (VInt t1 z) out2 | None => Undef out2 end
-                        else match compare o x y with Some c => Ok (VBool c) out2 | None => Wrong end
-                      else Wrong
-                  | VBool x, VBool y =>
-                      match o with
-                      | Eq => Ok (VBool (Bool.eqb x y)) out2
-                      | Ne => Ok (VBool (negb (Bool.eqb x y))) out2
-                      | _ => Wrong
-                      end
-                  | _, _ => Wrong
-                  end)))).
-    { intros t' Hk. eapply fine_bind; [apply IHa; assumption|]. intros va out1 Hva.
-      eapply fine_bind; [apply IHb; assumption|]. intros vb out2 Hvb. apply Hk; assumption. }
     destruct o.
-    1-5: (cbn; apply Hgen; intros va vb Hva Hvb out2;
-          destruct ta as [x| | |sx], tb as [y| | |sy]; try discriminate;
+    1-11: (cbn; eapply fine_bind; [exact (IH a ta en out Ha He)|]; intros [va en1] out1 [Hva He1]; cbn [fst snd] in *;
+           eapply fine_bind; [exact (IH b tb en1 out1 Hb He1)|]; intros [vb en2] out2 [Hvb He2]; cbn [fst snd] in *).
+    1-5: (destruct ta as [x| | |sx|rx], tb as [y| | |sy|ry]; try discriminate;
           destruct (ity_eqb x y) eqn:Ex; [|discriminate]; apply ity_eqb_eq in Ex; subst y; inversion H; subst;
           destruct va, vb; cbn in Hva, Hvb; try contradiction; subst; rewrite ity_eqb_refl; cbn;
           repeat match goal with |- context [if ?c then _ else _] => destruct c end; cbn; auto).
-    1-2: (cbn; apply Hgen; intros va vb Hva Hvb out2;
-          destruct ta as [x| | |sx], tb as [y| | |sy]; try discriminate;
+    1-2: (destruct ta as [x| | |sx|rx], tb as [y| | |sy|ry]; try discriminate;
           [destruct (ity_eqb x y) eqn:Ex; [|discriminate]; apply ity_eqb_eq in Ex; subst y|]; inversion H; subst;
           destruct va, vb; cbn in Hva, Hvb; try contradiction; subst; rewrite ?ity_eqb_refl; cbn; auto).
-    1-4: (cbn; apply Hgen; intros va vb Hva Hvb out2;
-          destruct ta as [x| | |sx], tb as [y| | |sy]; try discriminate;
+    1-4: (destruct ta as [x| | |sx|rx], tb as [y| | |sy|ry]; try discriminate;
           destruct (ity_eqb x y) eqn:Ex; [|discriminate]; apply ity_eqb_eq in Ex; subst y; inversion H; subst;
           destruct va, vb; cbn in Hva, Hvb; try contradiction; subst; rewrite ity_eqb_refl; cbn; auto).
     + (* And *) cbn. destruct ta, tb; try discriminate. inversion H; subst.
-      eapply fine_bind; [apply IHa; assumption|]. intros va out1 Hva. destruct va as [| [|] | |]; cbn in Hva; try contradiction; cbn; auto.
-      eapply fine_bind; [apply IHb; assumption|]. intros vb out2 Hvb. destruct vb; cbn in Hvb; try contradiction; cbn; auto.
+      eapply fine_bind; [exact (IH a _ en out Ha He)|]. intros [va en1] out1 [Hva He1]. cbn [fst snd] in *.
+      destruct va as [| [|] | |]; cbn in Hva; try contradiction; cbn; auto.
+      eapply fine_bind; [exact (IH b _ en1 out1 Hb He1)|]. intros [vb en2] out2 [Hvb He2]. cbn [fst snd] in *.
+      destruct vb; cbn in Hvb; try contradiction; cbn; auto.
     + (* Or *) cbn. destruct ta, tb; try discriminate. inversion H; subst.
-      eapply fine_bind; [apply IHa; assumption|]. intros va out1 Hva. destruct va as [| [|] | |]; cbn in Hva; try contradiction; cbn; auto.
-      eapply fine_bind; [apply IHb; assumption|]. intros vb out2 Hvb. destruct vb; cbn in Hvb; try contradiction; cbn; auto.
+      eapply fine_bind; [exact (IH a _ en out Ha He)|]. intros [va en1] out1 [Hva He1]. cbn [fst snd] in *.
+      destruct va as [| [|] | |]; cbn in Hva; try contradiction; cbn; auto.
+      eapply fine_bind; [exact (IH b _ en1 out1 Hb He1)|]. intros [vb en2] out2 [Hvb He2]. cbn [fst snd] in *.
+      destruct vb; cbn in Hvb; try contradiction; cbn; auto.
   - destruct o; cbn in H; apply tbind_ok in H as [ta [Ha H]]; destruct ta; try discriminate; inversion H; subst; cbn;
-      (eapply fine_bind; [exact (IH a _ en out Ha He)|]); intros va out1 Hva; destruct va; cbn in Hva; try contradiction; cbn; auto.
+      (eapply fine_bind; [exact (IH a _ en out Ha He)|]); intros [va en1] out1 [Hva He1]; cbn [fst snd] in *;
+      destruct va; cbn in Hva; try contradiction; cbn; auto.
   - cbn in H. apply tbind_ok in H as [ta [Ha H]]. destruct ta; try discriminate. inversion H; subst. cbn.
-    eapply fine_bind; [exact (IH a _ en out Ha He)|]. intros va out1 Hva. destruct va; cbn in Hva; try contradiction; cbn; auto.
-  - apply rule_call in H as [pts [Hn [Hlen HF]]]. cbn.
-    (* generalise the accumulator *)
-    assert (Hgen : forall es pts2 acc pts1 out,
-               Forall2 (fun e pt => check_expr structs sigs G e = TOk pt) es pts2 ->
-               Forall2 vtype (rev acc) pts1 -> pts = pts1 ++ pts2 ->
-               fine (fun v => vtype v t)
-                 ((fix evals (es : list expr) (acc : list value) (out : list line) {struct es} : res value :=
+    eapply fine_bind; [exact (IH a _ en out Ha He)|]. intros [va en1] out1 [Hva He1]. cbn [fst snd] in *.
+    destruct va; cbn in Hva; try contradiction; cbn; auto.
+  - (* call *) apply rule_call in H as [pts [Hn [Hlen HF]]]. cbn.
+    (* generalise the accumulator and the threaded environment *)
+    assert (Hgen : forall l pts2 acc pts1 en0 out0,
+               Forall2 (fun e pt => check_expr structs sigs G e = TOk pt) l pts2 ->
+               Forall2 vtype (rev acc) pts1 -> pts = pts1 ++ pts2 -> env_ok G en0 ->
+               fine (fun r => vtype (fst r) t /\ env_ok G (snd r))
+                 ((fix evals (es : list expr) (acc : list value) (en : env) (out : list line) {struct es} : res (value * env) :=
                      match es with
-                     | [] => callf f (rev acc) out
-                     | e1 :: r => bind (eval structs callf e1 en out) (fun v out => evals r (v :: acc) out)
-                     end) es acc out)).
-    { clear HF Hlen. induction es0 as [|e1 r IHes]; intros pts2 acc pts1 out0 HF Hacc Hp.
-      - inversion HF; subst. rewrite app_nil_r in Hn. eapply callf_ok; eauto.
+                     | [] => bind (callf f (rev acc) out) (fun r out => Ok (fst r, en) out)
+                     | e1 :: r => bind (eval structs callf e1 en out) (fun r1 out => evals r (fst r1 :: acc) (snd r1) out)
+                     end) l acc en0 out0)).
+    { clear HF Hlen He. induction l as [|e1 r IHes]; intros pts2 acc pts1 en0 out0 HF Hacc Hp He0.
+      - inversion HF; subst. rewrite app_nil_r in Hn.
+        eapply fine_bind; [eapply callf_ok; eauto|]. intros [v fin] out1 [Hv _]. cbn. auto.
       - inversion HF as [|? pt ? pr He1 Hr]; subst.
-        eapply fine_bind; [apply (IH e1 pt en); assumption|]. intros v out1 Hv.
-        apply (IHes pr (v :: acc) (pts1 ++ [pt])); [assumption| |rewrite <- app_assoc; reflexivity].
+        eapply fine_bind; [apply (IH e1 pt en0); assumption|]. intros [v en1] out1 [Hv Hen1]. cbn [fst snd] in *.
+        apply (IHes pr (v :: acc) (pts1 ++ [pt])); [assumption| |rewrite <- app_assoc; reflexivity|assumption].
         cbn. apply Forall2_app; [assumption|constructor; [assumption|constructor]]. }
-    apply (Hgen es pts [] []); [assumption|constructor|reflexivity].
+    apply (Hgen es pts [] []); [assumption|constructor|reflexivity|assumption].
   - (* struct literal *)
     apply slit_inv in H as [fts [Hn [-> HF]]]. cbn.
-    assert (Hgen : forall es fts2 acc fts1 out,
-               Forall2 (fun e ft => check_expr structs sigs G e = TOk (TInt ft)) es fts2 ->
-               length acc = length fts1 -> fts = fts1 ++ fts2 ->
-               fine (fun v => vtype v (TStruct sid))
-                 ((fix flds (es : list expr) (acc : list Z) (out : list line) {struct es} : res value :=
+    assert (Hgen : forall l fts2 acc fts1 en0 out0,
+               Forall2 (fun e ft => check_expr structs sigs G e = TOk (TInt ft)) l fts2 ->
+               length acc = length fts1 -> fts = fts1 ++ fts2 -> env_ok G en0 ->
+               fine (fun r => vtype (fst r) (TStruct sid) /\ env_ok G (snd r))
+                 ((fix flds (es : list expr) (acc : list Z) (en : env) (out : list line) {struct es} : res (value * env) :=
                      match es with
-                     | [] => Ok (VStruct sid (rev acc)) out
-                     | e1 :: r => bind (eval structs callf e1 en out) (fun v out =>
-                                    match v with VInt _ z => flds r (z :: acc) out | _ => Wrong end)
-                     end) es acc out)).
-    { clear HF. induction es0 as [|e1 r IHes]; intros fts2 acc fts1 out0 HF Hacc Hp.
-      - inversion HF; subst. cbn. split; [reflexivity|]. exists (fts1 ++ []). split; [exact Hn|].
+                     | [] => Ok (VStruct sid (rev acc), en) out
+                     | e1 :: r => bind (eval structs callf e1 en out) (fun r1 out =>
+                                    match fst r1 with VInt _ z => flds r (z :: acc) (snd r1) out | _ => Wrong end)
+                     end) l acc en0 out0)).
+    { clear HF He. induction l as [|e1 r IHes]; intros fts2 acc fts1 en0 out0 HF Hacc Hp He0.
+      - inversion HF; subst. cbn. split; [|exact He0]. split; [reflexivity|]. exists (fts1 ++ []). split; [exact Hn|].
         rewrite rev_length, app_nil_r. exact Hacc.
       - inversion HF as [|? ft ? fr He1 Hr]; subst.
-        eapply fine_bind; [apply (IH e1 (TInt ft) en); assumption|]. intros v out1 Hv.
+        eapply fine_bind; [apply (IH e1 (TInt ft) en0); assumption|]. intros [v en1] out1 [Hv Hen1]. cbn [fst snd] in *.
         destruct v; cbn in Hv; try contradiction.
-        apply (IHes fr (v :: acc) (fts1 ++ [ft])); [assumption| |rewrite <- app_assoc; reflexivity].
+        apply (IHes fr (v :: acc) (fts1 ++ [ft])); [assumption| |rewrite <- app_assoc; reflexivity|assumption].
         cbn. rewrite app_length. cbn. lia. }
-    apply (Hgen es fts [] []); [assumption|reflexivity|reflexivity].
+    apply (Hgen es fts [] []); [assumption|reflexivity|reflexivity|assumption].
   - (* field *)
-    cbn in H. apply tbind_ok in H as [ta [Ha H]]. destruct ta as [| | |sid]; try discriminate.
+    cbn in H. apply tbind_ok in H as [ta [Ha H]]. destruct ta as [| | |sid|]; try discriminate.
     destruct (nth_error structs sid) as [fts|] eqn:En; [|discriminate].
     destruct (nth_error fts k) as [t0|] eqn:Ek; [|discriminate]. inversion H; subst. cbn.
-    eapply fine_bind; [exact (IH a _ en out Ha He)|]. intros va out1 Hva.
+    eapply fine_bind; [exact (IH a _ en out Ha He)|]. intros [va en1] out1 [Hva He1]. cbn [fst snd] in *.
     destruct va as [| | |sid' fs]; cbn in Hva; try contradiction.
     destruct Hva as [-> [fts' [En' Hlen]]]. rewrite En in En'. inversion En'; subst fts'.
     rewrite En, Ek.
-    destruct (nth_error fs k) as [z|] eqn:Ez; [cbn; reflexivity|].
+    destruct (nth_error fs k) as [z|] eqn:Ez; [cbn; auto|].
     exfalso. apply nth_error_None in Ez. assert (k < length fts)%nat by (apply nth_error_Some; congruence). lia.
+  - (* call with by-reference arguments *)
+    apply callr_inv in H as [pts [Hn [Hd HF]]]. cbn.
+    assert (Hgen : forall l pts2 acc pts1 en0 out0,
+               Forall2 (argr_ok structs sigs G) l pts2 ->
+               Forall2 vtype (rev acc) pts1 -> pts = pts1 ++ pts2 -> env_ok G en0 ->
+               fine (fun r => vtype (fst r) t /\ env_ok G (snd r))
+                 ((fix evals (as_ : list (bool * expr)) (acc : list value) (en : env) (out : list line) {struct as_}
+                     : res (value * env) :=
+                     match as_ with
+                     | [] => bind (callf f (rev acc) out) (fun r out =>
+                               match copy_out args (snd r) en with Some en' => Ok (fst r, en') out | None => Wrong end)
+                     | a1 :: r => bind (eval structs callf (snd a1) en out) (fun r1 out => evals r (fst r1 :: acc) (snd r1) out)
+                     end) l acc en0 out0)).
+    { clear He. induction l as [|[fl e1] r IHl]; intros pts2 acc pts1 en0 out0 HF2 Hacc Hp He0.
+      - inversion HF2; subst. rewrite app_nil_r in *.
+        eapply fine_bind; [eapply callf_ok; eauto|]. intros [v fin] out1 [Hv Hfin]. cbn [fst snd] in *.
+        destruct (copy_out_ok sigs G args pts1 fin en0 HF Hfin He0) as [en' [Hc He']]. rewrite Hc. cbn. auto.
+      - inversion HF2 as [|? pt ? pr Ha1 Hr]; subst. destruct Ha1 as [_ [_ [te [Hte Heq]]]]. cbn [fst snd] in *.
+        apply ty_eqb_eq in Heq. subst te.
+        eapply fine_bind; [apply (IH e1 (pty_in pt) en0); assumption|]. intros [v en1] out1 [Hv Hen1]. cbn [fst snd] in *.
+        apply (proj1 (vtype_pty_in v pt)) in Hv.
+        apply (IHl pr (v :: acc) (pts1 ++ [pt])); [assumption| |rewrite <- app_assoc; reflexivity|assumption].
+        cbn. apply Forall2_app; [assumption|constructor; [assumption|constructor]]. }
+    apply (Hgen args pts [] []); [assumption|constructor|reflexivity|assumption].
 Qed.
 
 Definition flow_ok (ret : ty) (inl : bool) (fl : flow) : Prop :=
@@ -228,28 +274,49 @@ Definition flow_ok (ret : ty) (inl : bool) (fl : flow) : Prop :=
   | FReturn v => vtype v ret
   end.
 
+(* Gx extends G: same outer scopes, and the head scope only grew at the front (declarations are pushed; nothing is removed,
+   so the entries of G's head scope keep their positions counted from the bottom) *)
+Definition ext (G Gx : tenv) : Prop := exists new, hd [] Gx = new ++ hd [] G.
+
+Lemma ext_refl G : ext G G.
+Proof. exists []. reflexivity. Qed.
+Lemma ext_trans G1 G2 G3 : ext G1 G2 -> ext G2 G3 -> ext G1 G3.
+Proof. intros [n1 H1] [n2 H2]. exists (n2 ++ n1). rewrite H2, H1. apply app_assoc. Qed.
+
 (* what holds of the environment / flow an executed statement produces *)
 Definition post (ret : ty) (inl : bool) (G G' : tenv) (r : env * flow) : Prop :=
   flow_ok ret inl (snd r) /\
-  exists Gx, env_ok Gx (fst r) /\ tl Gx = tl G /\ Gx <> [] /\ (snd r = FNormal -> Gx = G').
+  exists Gx, env_ok Gx (fst r) /\ tl Gx = tl G /\ Gx <> [] /\ ext G Gx /\ (snd r = FNormal -> Gx = G').
+
+Lemma post_intro ret inl G G' Gx en fl :
+  flow_ok ret inl fl -> env_ok Gx en -> tl Gx = tl G -> Gx <> [] -> ext G Gx -> (fl = FNormal -> Gx = G') ->
+  post ret inl G G' (en, fl).
+Proof. intros Hf He Ht Hn Hx Hnorm. split; [exact Hf|]. exists Gx. auto. Qed.
+
+Lemma post_same ret inl G en fl : flow_ok ret inl fl -> env_ok G en -> G <> [] -> post ret inl G G (en, fl).
+Proof. intros Hf He Hn. apply post_intro with (Gx := G); auto. apply ext_refl. Qed.
 
 Lemma env_ok_tl G en : env_ok G en -> env_ok (tl G) (tl en).
 Proof. destruct 1; cbn; [constructor|assumption]. Qed.
 
-Lemma tdeclare_tl x t G : G <> [] -> tl (tdeclare x t G) = tl G /\ tdeclare x t G <> [].
-Proof. destruct G; [contradiction|]. cbn. split; [reflexivity|discriminate]. Qed.
+Lemma tdeclare_tl x t G : G <> [] -> tl (tdeclare x t G) = tl G /\ tdeclare x t G <> [] /\ ext G (tdeclare x t G).
+Proof. destruct G; [contradiction|]. cbn. split; [reflexivity|]. split; [discriminate|]. exists [(x, t)]. reflexivity. Qed.
 
-Lemma check_stmt_tl : forall s ret inl G G', check_stmt structs sigs ret inl G s = TOk G' -> G <> [] -> tl G' = tl G /\ G' <> [].
+(* check_stmt only ever extends the head scope at the front *)
+Lemma check_stmt_tl : forall s ret inl G G', check_stmt structs sigs ret inl G s = TOk G' -> G <> [] ->
+  tl G' = tl G /\ G' <> [] /\ ext G G'.
 Proof.
+  assert (Hsame : forall G : tenv, G <> [] -> tl G = tl G /\ G <> [] /\ ext G G).
+  { intros G Hne. split; [reflexivity|]. split; [exact Hne|apply ext_refl]. }
   induction s; intros ret inl G G' H Hne; cbn in H.
   - inversion H; subst; auto.
-  - apply tbind_ok in H as [G1 [H1 H2]]. destruct (IHs1 _ _ _ _ H1 Hne) as [E1 N1].
-    destruct (IHs2 _ _ _ _ H2 N1) as [E2 N2]. split; [congruence|assumption].
+  - apply tbind_ok in H as [G1 [H1 H2]]. destruct (IHs1 _ _ _ _ H1 Hne) as [E1 [N1 X1]].
+    destruct (IHs2 _ _ _ _ H2 N1) as [E2 [N2 X2]]. split; [congruence|]. split; [assumption|]. eapply ext_trans; eassumption.
   - destruct (in_current x G); [discriminate|]. apply tbind_ok in H as [te [_ H]].
     destruct t; try discriminate; destruct (ty_eqb te _); try discriminate; inversion H; subst; apply tdeclare_tl; assumption.
   - destruct (tlookup x G); [|discriminate]. apply tbind_ok in H as [te [_ H]].
     destruct (ty_eqb te t); inversion H; subst; auto.
-  - destruct (tlookup x G) as [[| | |sid]|]; try discriminate.
+  - destruct (tlookup x G) as [[| | |sid|]|]; try discriminate.
     destruct (nth_error structs sid) as [fts|]; [|discriminate]. destruct (nth_error fts k) as [t0|]; [|discriminate].
     apply tbind_ok in H as [te [_ H]]. destruct (ty_eqb te (TInt t0)); inversion H; subst; auto.
   - apply tbind_ok in H as [tc [_ H]]. destruct tc; try discriminate.
@@ -267,7 +334,7 @@ Proof.
   - assert (G' = G) as ->; [|auto].
     revert H. induction es as [|e1 r IHes]; intros H; [inversion H; reflexivity|].
     apply tbind_ok in H as [te [_ H]]. destruct (printable te); [auto|discriminate].
-  - destruct e; try discriminate. apply tbind_ok in H as [te [_ H]]. inversion H; subst; auto.
+  - destruct e; try discriminate; apply tbind_ok in H as [te [_ H]]; inversion H; subst; auto.
   - apply tbind_ok in H as [Ga [_ H]]. inversion H; subst; auto.
 Qed.
 
@@ -283,126 +350,131 @@ Theorem exec_safe k : forall s ret inl G G' en out,
   fine (post ret inl G G') (exec structs callf k s en out).
 Proof.
   induction s; intros ret inl G G' en out H He Hne; cbn in H.
-  - (* skip *) inversion H; subst. cbn. split; [exact I|]. exists G'. auto.
+  - (* skip *) inversion H; subst. cbn. apply post_same; [exact I|assumption|assumption].
   - (* seq *) apply tbind_ok in H as [G1 [H1 H2]]. cbn.
-    eapply fine_bind; [eapply IHs1; eassumption|]. intros [en1 fl] out1 [Hf [Gx [Hex [Ht [Hn Hnorm]]]]]. cbn in *.
-    destruct (check_stmt_tl _ _ _ _ _ H1 Hne) as [E1 N1].
+    eapply fine_bind; [eapply IHs1; eassumption|]. intros [en1 fl] out1 [Hf [Gx [Hex [Ht [Hn [Hx Hnorm]]]]]]. cbn [fst snd] in *.
     destruct fl.
     + specialize (Hnorm eq_refl). subst Gx.
-      pose proof (IHs2 ret inl G1 G' en1 out1 H2 Hex N1) as R. destruct (exec structs callf k s2 en1 out1); cbn in *; auto.
-      destruct R as [Rf [Gy [Rey [Rt [Rn Rnorm]]]]]. split; [assumption|]. exists Gy. repeat split; auto. congruence.
-    + cbn. split; [assumption|]. exists Gx. repeat split; auto; try discriminate.
-    + cbn. split; [assumption|]. exists Gx. repeat split; auto; try discriminate.
-    + cbn. split; [assumption|]. exists Gx. repeat split; auto; try discriminate.
+      pose proof (IHs2 ret inl G1 G' en1 out1 H2 Hex Hn) as R. destruct (exec structs callf k s2 en1 out1) as [[en2 fl2] out2| | |]; cbn in *; auto.
+      destruct R as [Rf [Gy [Rey [Rt [Rn [Rx Rnorm]]]]]]. cbn [fst snd] in *.
+      apply post_intro with (Gx := Gy); auto; [congruence|eapply ext_trans; eassumption].
+    + cbn. apply post_intro with (Gx := Gx); auto; discriminate.
+    + cbn. apply post_intro with (Gx := Gx); auto; discriminate.
+    + cbn. apply post_intro with (Gx := Gx); auto; discriminate.
   - (* let *) destruct (in_current x G); [discriminate|]. apply tbind_ok in H as [te [Hte H]]. cbn.
-    eapply fine_bind; [eapply eval_safe; eassumption|]. intros v out1 Hv. cbn.
+    eapply fine_bind; [eapply eval_safe; eassumption|]. intros [v en1] out1 [Hv He1]. cbn [fst snd] in *.
     assert (Ht : te = t /\ G' = tdeclare x t G).
     { destruct t; try discriminate; destruct (ty_eqb te _) eqn:E; try discriminate; apply ty_eqb_eq in E; inversion H; subst; auto. }
-    destruct Ht as [-> ->]. split; [exact I|]. exists (tdeclare x t G).
-    destruct (tdeclare_tl x t G Hne). repeat split; auto. apply declare_ok; assumption.
+    destruct Ht as [-> ->]. destruct (tdeclare_tl x t G Hne) as [Htl [Hnn Hxx]].
+    apply post_intro with (Gx := tdeclare x t G); auto; [exact I|]. apply declare_ok; assumption.
   - (* assign *) destruct (tlookup x G) as [t|] eqn:El; [|discriminate]. apply tbind_ok in H as [te [Hte H]]. cbn.
-    eapply fine_bind; [eapply eval_safe; eassumption|]. intros v out1 Hv.
+    eapply fine_bind; [eapply eval_safe; eassumption|]. intros [v en1] out1 [Hv He1]. cbn [fst snd] in *.
     destruct (ty_eqb te t) eqn:E; [|discriminate]. apply ty_eqb_eq in E. subst te. inversion H; subst.
-    destruct (update_ok _ _ _ _ _ He El Hv) as [en' [Hu He']]. rewrite Hu. cbn.
-    split; [exact I|]. exists G'. auto.
+    destruct (update_ok _ _ _ _ _ He1 El Hv) as [en' [Hu He']]. rewrite Hu. cbn.
+    apply post_same; [exact I|assumption|assumption].
   - (* field assignment *)
-    destruct (tlookup x G) as [[| | |sid]|] eqn:El; try discriminate.
+    destruct (tlookup x G) as [[| | |sid|]|] eqn:El; try discriminate.
     destruct (nth_error structs sid) as [fts|] eqn:En; [|discriminate].
     match type of H with context [nth_error fts ?kk] => rename kk into kf end.
     destruct (nth_error fts kf) as [t0|] eqn:Ek; [|discriminate].
     apply tbind_ok in H as [te [Hte H]]. destruct (ty_eqb te (TInt t0)) eqn:E; [|discriminate].
     apply ty_eqb_eq in E. subst te. inversion H; subst. cbn.
-    eapply fine_bind; [eapply eval_safe; eassumption|]. intros v out1 Hv.
+    eapply fine_bind; [eapply eval_safe; eassumption|]. intros [v en1] out1 [Hv He1]. cbn [fst snd] in *.
     destruct v as [tv z| | |]; cbn in Hv; try contradiction.
-    destruct (lookup_ok _ _ _ _ He El) as [vs [Hl Hvs]]. rewrite Hl.
+    destruct (lookup_ok _ _ _ _ He1 El) as [vs [Hl Hvs]]. rewrite Hl.
     destruct vs as [| | |sid' fs]; cbn in Hvs; try contradiction.
     destruct Hvs as [-> [fts' [En' Hlen]]]. rewrite En in En'. inversion En'; subst fts'.
     assert (Hk : (kf < length fs)%nat) by (rewrite Hlen; apply nth_error_Some; congruence).
     destruct (set_nth_some kf z fs Hk) as [fs' [Hs Hl']]. rewrite Hs.
     assert (Hnew : vtype (VStruct sid fs') (TStruct sid)).
     { cbn. split; [reflexivity|]. exists fts. split; [exact En|]. congruence. }
-    destruct (update_ok _ _ _ _ _ He El Hnew) as [en' [Hu He']]. rewrite Hu. cbn.
-    split; [exact I|]. exists G'. auto.
+    destruct (update_ok _ _ _ _ _ He1 El Hnew) as [en' [Hu He']]. rewrite Hu. cbn.
+    apply post_same; [exact I|assumption|assumption].
   - (* if *) apply tbind_ok in H as [tc [Hc H]]. destruct tc; try discriminate.
     apply tbind_ok in H as [Ga [Ha H]]. apply tbind_ok in H as [Gb [Hb H]]. inversion H; subst. cbn.
-    eapply fine_bind; [eapply eval_safe; eassumption|]. intros vc out1 Hvc. destruct vc as [| [|] | |]; cbn in Hvc; try contradiction.
-    + eapply fine_bind; [eapply (IHs1 ret inl ([] :: G') Ga ([] :: en)); [eassumption|constructor; [constructor|assumption]|discriminate]|].
-      intros r out2 Hp. destruct (post_pop _ _ _ _ _ Hp Hne) as [Hen Hfl]. cbn. split; [exact Hfl|]. exists G'. auto.
-    + eapply fine_bind; [eapply (IHs2 ret inl ([] :: G') Gb ([] :: en)); [eassumption|constructor; [constructor|assumption]|discriminate]|].
-      intros r out2 Hp. destruct (post_pop _ _ _ _ _ Hp Hne) as [Hen Hfl]. cbn. split; [exact Hfl|]. exists G'. auto.
+    eapply fine_bind; [eapply eval_safe; eassumption|]. intros [vc en1] out1 [Hvc He1]. cbn [fst snd] in *.
+    destruct vc as [| [|] | |]; cbn in Hvc; try contradiction.
+    + eapply fine_bind; [eapply (IHs1 ret inl ([] :: G') Ga ([] :: en1)); [eassumption|constructor; [constructor|assumption]|discriminate]|].
+      intros [en2 fl2] out2 Hp. destruct (post_pop _ _ _ _ _ Hp Hne) as [Hen Hfl]. cbn. apply post_same; assumption.
+    + eapply fine_bind; [eapply (IHs2 ret inl ([] :: G') Gb ([] :: en1)); [eassumption|constructor; [constructor|assumption]|discriminate]|].
+      intros [en2 fl2] out2 Hp. destruct (post_pop _ _ _ _ _ Hp Hne) as [Hen Hfl]. cbn. apply post_same; assumption.
   - (* while *) apply tbind_ok in H as [tc [Hc H]]. destruct tc; try discriminate.
     apply tbind_ok in H as [Ga [Ha H]]. inversion H; subst. cbn.
     match goal with |- fine ?P (?L k en out) =>
       assert (Hl : forall n e o, env_ok G' e -> fine P (L n e o)); [|apply Hl; assumption] end.
     clear en out He. induction n as [|n IHn]; intros en out He; [exact I|].
-    eapply fine_bind; [eapply eval_safe; eassumption|]. intros vc out1 Hvc. destruct vc as [| [|] | |]; cbn in Hvc; try contradiction.
-    + eapply fine_bind; [eapply (IHs ret true ([] :: G') Ga ([] :: en)); [eassumption|constructor; [constructor|assumption]|discriminate]|].
-      intros r out2 Hp. destruct (post_pop _ _ _ _ _ Hp Hne) as [Hen Hfl]. destruct r as [en2 fl]. cbn in *.
+    eapply fine_bind; [eapply eval_safe; eassumption|]. intros [vc en1] out1 [Hvc He1]. cbn [fst snd] in *.
+    destruct vc as [| [|] | |]; cbn in Hvc; try contradiction.
+    + eapply fine_bind; [eapply (IHs ret true ([] :: G') Ga ([] :: en1)); [eassumption|constructor; [constructor|assumption]|discriminate]|].
+      intros r out2 Hp. destruct (post_pop _ _ _ _ _ Hp Hne) as [Hen Hfl]. destruct r as [en2 fl]. cbn [fst snd] in *.
       destruct fl; cbn.
       * apply IHn; assumption.
-      * split; [exact I|]. exists G'. auto.
+      * apply post_same; [exact I|assumption|assumption].
       * apply IHn; assumption.
-      * split; [exact Hfl|]. exists G'. repeat split; auto; try discriminate.
-    + cbn. split; [exact I|]. exists G'. auto.
+      * apply post_same; assumption.
+    + cbn. apply post_same; [exact I|assumption|assumption].
   - (* for *) apply tbind_ok in H as [tl [Hlo H]]. apply tbind_ok in H as [th [Hhi H]]. apply tbind_ok in H as [ts [Hst H]].
     destruct (ty_eqb tl (TInt t) && ty_eqb th (TInt t) && ty_eqb ts (TInt t)) eqn:Et; [|discriminate].
     apply andb_prop in Et as [Et E3]. apply andb_prop in Et as [E1 E2]. apply ty_eqb_eq in E1, E2, E3. subst tl th ts.
     apply tbind_ok in H as [Ga [Ha H]]. inversion H; subst. cbn.
-    eapply fine_bind; [eapply eval_safe; eassumption|]. intros vlo out1 Hvlo.
-    eapply fine_bind; [eapply eval_safe; eassumption|]. intros vhi out2 Hvhi.
-    eapply fine_bind; [eapply eval_safe; eassumption|]. intros vst out3 Hvst.
+    eapply fine_bind; [eapply eval_safe; eassumption|]. intros [vlo en1] out1 [Hvlo He1]. cbn [fst snd] in *.
+    eapply fine_bind; [eapply eval_safe; eassumption|]. intros [vhi en2] out2 [Hvhi He2]. cbn [fst snd] in *.
+    eapply fine_bind; [eapply eval_safe; eassumption|]. intros [vst en3] out3 [Hvst He3]. cbn [fst snd] in *.
     destruct vlo as [t1 l| | |], vhi as [t2 h| | |], vst as [t3 st| | |]; cbn in Hvlo, Hvhi, Hvst; try contradiction. subst t1 t2 t3.
-    match goal with |- fine ?P (?L k l en out3) =>
+    match goal with |- fine ?P (?L k l en3 out3) =>
       assert (Hl : forall n i e o, env_ok G' e -> fine P (L n i e o)); [|apply Hl; assumption] end.
-    clear en out He out1 out2 out3. induction n as [|n IHn]; intros i en out He; [exact I|].
+    clear en out He out1 out2 out3 en1 He1 en2 He2 en3 He3. induction n as [|n IHn]; intros i en out He; [exact I|].
     destruct (for_cond incl st i h).
     + eapply fine_bind; [eapply (IHs ret true ([(x, TInt t)] :: G') Ga ([(x, VInt t i)] :: en));
         [eassumption|constructor; [constructor; [reflexivity|constructor]|assumption]|discriminate]|].
       intros r out3 Hp. destruct Hp as [Hfl [Gx [Hex [Htl _]]]]. apply env_ok_tl in Hex. rewrite Htl in Hex. cbn in Hex.
-      destruct r as [en2 fl]. cbn in *. destruct fl; cbn.
+      destruct r as [en2 fl]. cbn [fst snd] in *. destruct fl; cbn.
       * apply IHn; assumption.
-      * split; [exact I|]. exists G'. auto.
+      * apply post_same; [exact I|assumption|assumption].
       * apply IHn; assumption.
-      * split; [exact Hfl|]. exists G'. repeat split; auto; try discriminate.
-    + cbn. split; [exact I|]. exists G'. auto.
-  - (* break *) destruct inl; inversion H; subst. cbn. split; [reflexivity|]. exists G'. repeat split; auto; try discriminate.
-  - (* continue *) destruct inl; inversion H; subst. cbn. split; [reflexivity|]. exists G'. repeat split; auto; try discriminate.
+      * apply post_same; assumption.
+    + cbn. apply post_same; [exact I|assumption|assumption].
+  - (* break *) destruct inl; inversion H; subst. cbn. apply post_same; [reflexivity|assumption|assumption].
+  - (* continue *) destruct inl; inversion H; subst. cbn. apply post_same; [reflexivity|assumption|assumption].
   - (* return *) destruct e as [e|].
     + apply tbind_ok in H as [te [Hte H]]. cbn.
-      eapply fine_bind; [eapply eval_safe; eassumption|]. intros v out1 Hv. cbn.
+      eapply fine_bind; [eapply eval_safe; eassumption|]. intros [v en1] out1 [Hv He1]. cbn [fst snd] in *.
       assert (te = ret /\ G' = G) as [-> ->].
       { destruct ret; try discriminate; destruct (ty_eqb te _) eqn:E; try discriminate; apply ty_eqb_eq in E; inversion H; subst; auto. }
-      split; [exact Hv|]. exists G. repeat split; auto; try discriminate.
-    + destruct ret; inversion H; subst. cbn. split; [exact I|]. exists G'. repeat split; auto; try discriminate.
+      apply post_same; assumption.
+    + destruct ret; inversion H; subst. cbn. apply post_same; [exact I|assumption|assumption].
   - (* print *) cbn.
     assert (G' = G) as ->.
     { revert H. clear. induction es as [|e1 r IHes]; intros H; [inversion H; reflexivity|].
       apply tbind_ok in H as [te [_ H]]. destruct (printable te); [auto|discriminate]. }
     pose proof (prints_ok structs sigs G es H) as Hall.
-    assert (Hgen : forall es acc out, (forall a, In a es -> exists te, check_expr structs sigs G a = TOk te /\ printable te = true) ->
+    assert (Hgen : forall l acc en0 out0, (forall a, In a l -> exists te, check_expr structs sigs G a = TOk te /\ printable te = true) ->
+              env_ok G en0 ->
               fine (post ret inl G G)
-               ((fix prints (es : list expr) (acc : line) (out : list line) {struct es} : res (env * flow) :=
+               ((fix prints (es : list expr) (acc : line) (en : env) (out : list line) {struct es} : res (env * flow) :=
                    match es with
                    | [] => Ok (en, FNormal) (out ++ [rev acc])
-                   | e1 :: r => bind (eval structs callf e1 en out) (fun v out =>
-                                  match item_of v with Some it => prints r (it :: acc) out | None => Wrong end)
-                   end) es acc out)).
-    { clear H Hall. induction es0 as [|e1 r IHes]; intros acc out0 Hall.
-      - cbn. split; [exact I|]. exists G. auto.
+                   | e1 :: r => bind (eval structs callf e1 en out) (fun r1 out =>
+                                  match item_of (fst r1) with Some it => prints r (it :: acc) (snd r1) out | None => Wrong end)
+                   end) l acc en0 out0)).
+    { clear H Hall He. induction l as [|e1 r IHes]; intros acc en0 out0 Hall He0.
+      - cbn. apply post_same; [exact I|assumption|assumption].
       - destruct (Hall e1 (or_introl eq_refl)) as [te [Hte Hp]].
-        eapply fine_bind; [eapply eval_safe; eassumption|]. intros v out1 Hv.
-        destruct v, te; cbn in Hv, Hp; try contradiction; try discriminate; cbn; apply IHes; intros a Ha; apply Hall; right; exact Ha. }
-    apply Hgen. exact Hall.
-  - (* expr *) destruct e; try discriminate. apply tbind_ok in H as [te [Hte H]]. inversion H; subst. cbn [exec].
-    eapply fine_bind; [eapply eval_safe; eassumption|]. intros v out1 Hv. cbn. split; [exact I|]. exists G'. auto.
+        eapply fine_bind; [eapply eval_safe; eassumption|]. intros [v en1] out1 [Hv He1]. cbn [fst snd] in *.
+        destruct v, te; cbn in Hv, Hp; try contradiction; try discriminate; cbn;
+          (apply IHes; [intros a Ha; apply Hall; right; exact Ha|assumption]). }
+    apply Hgen; assumption.
+  - (* expr *) destruct e; try discriminate; apply tbind_ok in H as [te [Hte H]]; inversion H; subst; cbn [exec];
+      (eapply fine_bind; [eapply eval_safe; eassumption|]); intros [v en1] out1 [Hv He1]; cbn;
+      (apply post_same; [exact I|assumption|assumption]).
   - (* block *) apply tbind_ok in H as [Ga [Ha H]]. inversion H; subst. cbn.
     eapply fine_bind; [eapply (IHs ret inl ([] :: G') Ga ([] :: en)); [eassumption|constructor; [constructor|assumption]|discriminate]|].
-    intros r out2 Hp. destruct (post_pop _ _ _ _ _ Hp Hne) as [Hen Hfl]. cbn. split; [exact Hfl|]. exists G'. auto.
+    intros [en2 fl2] out2 Hp. destruct (post_pop _ _ _ _ _ Hp Hne) as [Hen Hfl]. cbn. apply post_same; assumption.
 Qed.
 End Safety.
 
 Section Returns.
-Variable callf : nat -> list value -> list line -> res value.
+Variable callf : nat -> list value -> list line -> res (value * list value).
 
 Lemma bind_ok_inv {A B} (r : res A) (k : A -> list line -> res B) b out :
   bind r k = Ok b out -> exists a o, r = Ok a o /\ k a o = Ok b out.
@@ -418,7 +490,7 @@ Proof.
     + pose proof (IHs1 _ _ _ _ Hr H1) as Hn. cbn in Hn. destruct fl1; [contradiction| | |]; inversion H2; subst; cbn; discriminate.
     + destruct fl1; [eapply IHs2; eassumption| | |]; inversion H2; subst; cbn; discriminate.
   - apply andb_prop in Hr as [Ha Hb].
-    apply bind_ok_inv in H as [vc [o1 [H1 H2]]]. destruct vc as [| [|] | |]; try discriminate.
+    apply bind_ok_inv in H as [[vc enc] [o1 [H1 H2]]]. cbn [fst snd] in H2. destruct vc as [| [|] | |]; try discriminate.
     + apply bind_ok_inv in H2 as [r1 [o2 [H3 H4]]]. inversion H4; subst. cbn. eapply IHs1; eassumption.
     + apply bind_ok_inv in H2 as [r1 [o2 [H3 H4]]]. inversion H4; subst. cbn. eapply IHs2; eassumption.
   - destruct e as [e|].
@@ -428,40 +500,57 @@ Proof.
 Qed.
 End Returns.
 
+(* binding the arguments: the callee starts in the scope of its parameters, each at the type it has inside the function *)
 Lemma bind_params_ok : forall ps args, Forall2 vtype args (map snd ps) ->
-  exists sc, bind_params ps args = Some sc /\ scope_ok ps sc.
+  exists sc, bind_params ps args = Some sc /\ scope_ok (map (fun xt => (fst xt, pty_in (snd xt))) ps) sc.
 Proof.
   induction ps as [|[x t] ps IH]; intros args H; cbn in *.
   - inversion H; subst. exists []. split; [reflexivity|constructor].
   - inversion H as [|v ? vs ? Hv Hr]; subst. destruct (IH vs Hr) as [sc [Hb Hs]].
-    cbn. rewrite Hb. eexists; split; [reflexivity|]. constructor; assumption.
+    cbn. rewrite Hb. eexists; split; [reflexivity|]. constructor; [apply vtype_pty_in; assumption|assumption].
 Qed.
+
+Lemma map_snd_pty_in (ps : list (nat * ty)) :
+  map snd (map (fun xt => (fst xt, pty_in (snd xt))) ps) = map pty_in (map snd ps).
+Proof. induction ps as [|[x t] ps IH]; cbn; congruence. Qed.
 
 Section Prog.
 Variable p : prog.
 Let sigs := map sig_of p.
 Hypothesis fns_ok : forall f fd, nth_error p f = Some fd -> check_fn structs sigs fd = TOk tt.
 
+(* a call returns a value of the return type, and final parameter values of the parameter types *)
 Theorem call_safe : forall fuel f pts rt args out,
   nth_error sigs f = Some (pts, rt) -> Forall2 vtype args pts ->
-  fine (fun v => vtype v rt) (call structs p fuel f args out).
+  fine (fun r => vtype (fst r) rt /\ Forall2 vtype (snd r) pts) (call structs p fuel f args out).
 Proof.
   induction fuel as [|fuel IH]; intros f pts rt args out Hs Ha; [exact I|].
-  cbn. unfold sigs in Hs. rewrite nth_error_map in Hs. destruct (nth_error p f) as [fd|] eqn:Ef; [|discriminate].
+  cbn [call]. unfold sigs in Hs. rewrite nth_error_map in Hs. destruct (nth_error p f) as [fd|] eqn:Ef; [|discriminate].
   cbn in Hs. inversion Hs; subst. clear Hs.
   destruct (bind_params_ok _ _ Ha) as [sc [Hb Hsc]]. rewrite Hb.
   pose proof (fns_ok _ _ Ef) as Hf. unfold check_fn in Hf.
   destruct (negb (distinct_params (fparams fd))); [discriminate|].
   apply tbind_ok in Hf as [G' [Hst Hret]].
-  assert (Hex : fine (post (fret fd) false [fparams fd] G') (exec structs (call structs p fuel) fuel (fbody fd) [sc] out)).
+  remember (map (fun xt => (fst xt, pty_in (snd xt))) (fparams fd)) as ps' eqn:Eps.
+  assert (Hex : fine (post (fret fd) false [ps'] G') (exec structs (call structs p fuel) fuel (fbody fd) [sc] out)).
   { eapply (exec_safe sigs (call structs p fuel)); [|eassumption| |discriminate].
     - intros g pts' rt' args' out' Hn Hargs. eapply IH; eassumption.
     - constructor; [assumption|constructor]. }
-  destruct (exec structs (call structs p fuel) fuel (fbody fd) [sc] out) as [[en' fl] out'| | |] eqn:Eex; cbn in *; auto.
-  destruct Hex as [Hfl _]. cbn in Hfl. destruct fl; cbn; try discriminate; auto.
-  destruct (fret fd) eqn:Er; cbn; auto;
-    (destruct (returns (fbody fd)) eqn:Rb; [|discriminate];
-     exfalso; eapply (returns_not_normal (call structs p fuel) fuel); [exact Rb|exact Eex|reflexivity]).
+  destruct (exec structs (call structs p fuel) fuel (fbody fd) [sc] out) as [[en' fl] out'| | |] eqn:Eex; cbn [bind fine] in *; auto.
+  destruct Hex as [Hfl [Gx [Hen [Htl [Hnn [[new Hnew] _]]]]]]. cbn [fst snd] in *.
+  (* the parameters still sit at the bottom of the only scope, well typed *)
+  assert (Hfin : Forall2 vtype (map snd (lastn (length sc) (hd [] en'))) (map snd (fparams fd))).
+  { destruct Gx as [|g Gr]; [contradiction|]. cbn in Htl, Hnew. subst Gr g.
+    inversion Hen as [|? s ? enr Hs Hr]; subst. inversion Hr; subst. cbn [hd].
+    apply scope_ok_app_inv in Hs as [s1 [s2 [-> [Hs1 Hs2]]]].
+    assert (Hl : length sc = length s2).
+    { rewrite (scope_ok_length _ _ Hs2). apply scope_ok_length. exact Hsc. }
+    rewrite Hl, lastn_app. apply scope_ok_values in Hs2.
+    rewrite map_snd_pty_in in Hs2. apply (proj1 (Forall2_vtype_pty_in _ _)) in Hs2. exact Hs2. }
+  destruct fl; cbn [snd fst fine]; try discriminate; auto.
+  - destruct (fret fd) eqn:Er; cbn; auto; try discriminate;
+      (destruct (returns (fbody fd)) eqn:Rb; [|discriminate];
+       exfalso; eapply (returns_not_normal (call structs p fuel) fuel); [exact Rb|exact Eex|reflexivity]).
 Qed.
 End Prog.
 
@@ -493,3 +582,17 @@ Proof.
   destruct (call structs p fuel (length p - 1) [] []); cbn in Hc; try discriminate; contradiction.
 Qed.
 End WithStructs.
+
+(* non-vacuity of the by-reference fragment: f0(s: &'S0, k: i32) { s.F0 = k; }  main { let v = {1, 2}; f0(&'v, 3); print v.F0 }
+   is accepted, and running it prints the value written through the reference *)
+Definition byref_sample : prog :=
+  [ {| fparams := [(0, TMutRef 0); (1, TInt I32)]; fret := TVoid; fbody := SAssignField 0 0 (EVar 1) |};
+    {| fparams := []; fret := TVoid;
+       fbody := SSeq (SLet 1 (TStruct 0) (EStructLit 0 [ELit I32 1%Z; ELit U8 2%Z]))
+               (SSeq (SExpr (ECallR 0 [(true, EVar 1); (false, ELit I32 3%Z)]))
+                     (SPrint [EField (EVar 1) 0])) |} ].
+Example byref_sample_accepted : check_prog [[I32; U8]] byref_sample = TOk tt.
+Proof. vm_compute. reflexivity. Qed.
+Example byref_sample_runs : run [[I32; U8]] byref_sample 5 = Done [[OInt 3%Z]].
+Proof. vm_compute. reflexivity. Qed.
+
